@@ -10,7 +10,7 @@ from .. import terms as T
 
 DONORS_Q = ["C03", "C04", "C05", "C08", "C13", "C19", "C14", "C15", "C17"]
 DONORS_T = DONORS_Q + ["C06", "C09", "C16"]
-PER_DONOR_Q = 60
+PER_DONOR_Q = 80
 PER_DONOR_T = 400
 
 
@@ -180,15 +180,25 @@ class C20(F.Check):
             finally:
                 donor.cleanup()
             self.rng.shuffle(dk)
-            fam_seen = {}
+
+            def bucket(k):
+                # family x kind (signed / unsigned / floating, sub-int or not) of every C type named in the kernel's key
+                cls = []
+                for v in (k.key or {}).values():
+                    if isinstance(v, str) and v in F.CTYPES:
+                        kind, w, _ = F.CTYPES[v]
+                        cls.append(kind + ("n" if w < 32 else "w"))
+                return (k.family, tuple(cls))
+            buckets = {}
+            for k in dk:
+                buckets.setdefault(bucket(k), []).append(k)
             chosen = []
-            for k in dk:          # spread over families first
-                c = fam_seen.get(k.family, 0)
-                if c < max(2, per // 12):
-                    fam_seen[k.family] = c + 1
-                    chosen.append(k)
-                if len(chosen) >= per:
-                    break
+            rnd = 0
+            while len(chosen) < per and any(len(v) > rnd for v in buckets.values()):      # round-robin: every (family, type-kind) bucket first
+                for b in sorted(buckets, key=str):
+                    if len(buckets[b]) > rnd and len(chosen) < per:
+                        chosen.append(buckets[b][rnd])
+                rnd += 1
             for k in chosen:
                 base = copy.copy(k)
                 base.enc_opts = dopts
